@@ -265,6 +265,23 @@ def clean_segments(path):
     return all(s not in ("", ".", "..") for s in segs)
 
 
+def expected_prefix(ou, pre, oa, sha):
+    """(prefix the AMP algorithm prescribes or None when not evaluated, True when byte- and character-indexed hyphen tests differ)"""
+    fallback = b32lower(sha).encode()
+    if len(fallback) != 52:
+        return None, False
+    if ou is None:
+        return fallback, False
+    try:
+        chars = ou.decode("utf-8")
+    except UnicodeDecodeError:
+        return None, False
+    if spec_steps234(chars).encode("utf-8") != pre:
+        return None, False
+    want = oa if (oa is not None and len(oa) <= 63) else fallback
+    return want, bytes_steps234(ou) != spec_steps234(chars).encode("utf-8")
+
+
 def prop_cache(line, impl, model):
     a = line.split(" ")
     if impl.startswith("!panic") or impl == "!died":
@@ -584,6 +601,11 @@ def prop_rdv(line, impl, model):
             return "no front: URL host and Host header differ"
         if named is not None and urlhost != named:
             return "no front: request does not go to the broker host"
+    if cache is not None and b":" not in cache[2]:
+        want, _ = expected_prefix(tok_opt(a[13]), tok_opt(a[14]), tok_opt(a[15]), bytes.fromhex(a[16][1:]))
+        hh = hosthdr[: -len(cache[3]) - 1] if cache[3] != b"" else hosthdr
+        if want is not None and hh != want + b"." + cache[2]:
+            return "AMP cache host is %r, the AMP algorithm (hyphen test on character positions 3-4) gives prefix %r" % (hh, want)
     # response handling
     must_err = status != 200 or served_len > LIMIT or loc == 1
     if must_err and res != "res=err":
@@ -597,6 +619,13 @@ def prop_rdv(line, impl, model):
 
 def key_rdv(line, impl, model):
     a = line.split(" ")
+    if a[1] == "amp" and a[12] != "n":
+        _, divergent = expected_prefix(tok_opt(a[13]), tok_opt(a[14]), tok_opt(a[15]), bytes.fromhex(a[16][1:]))
+        try:
+            if divergent and rdv_fields(impl)[0][3] != rdv_fields(model)[0][3]:
+                return "idn-hyphen-byte-index"
+        except Exception:
+            pass
     try:
         req, res = rdv_fields(impl)
         mreq, mres = rdv_fields(model)
